@@ -44,8 +44,12 @@ OUTER:
 			//
 			// So, we notify/awake the merger here so that it can feed
 			// stackDirtyMid down to the persister as stackDirtyBase.
+			//
+			// A stackDirtyMid without any segment counts as well: it may
+			// be all that is left of a batch which only deleted or created
+			// a child collection, and that still has to reach the lower level.
 			if m.waitDirtyIncomingCh != nil && // Merger is indeed asleep.
-				(m.stackDirtyMid != nil && len(m.stackDirtyMid.a) > 0) &&
+				m.stackDirtyMid != nil &&
 				(m.stackDirtyTop == nil || len(m.stackDirtyTop.a) <= 0) {
 				m.NotifyMerger("from-persister", false)
 			}
